@@ -415,6 +415,10 @@ func buildSource(o Op, dir string, log *evLog) (fsutil.FS, *memFS, []interface{}
 		if _, ok := fo["exclude"]; ok {
 			opt.ExcludePatterns = hexList(f.arr("exclude"))
 		}
+		if _, ok := fo["follow"]; ok {
+			// (resolved by NewFilterFS in the view of the filter below)
+			opt.FollowPaths = hexList(f.arr("follow"))
+		}
 		ffs, err := fsutil.NewFilterFS(fs, opt)
 		if err != nil {
 			return nil, nil, nil, err
